@@ -744,7 +744,9 @@ class Gen:
                 pts[-1]["meas"], pts[-2]["meas"] = "Z\u00fcrich", "Zu\u0308rich"
             if r.random() < 0.6:
                 # an instant far outside 1700-2240 (year 999 / 1 / 9999): only its text form in the file is at stake here, no time query follows
-                pts[0]["time"] = r.choice([-30628713600000000, -62135510400000000, 253370764800000000]) + r.randrange(1000000)
+                # (whole seconds: beyond 1700-2240 the index's float stamps do not resolve microseconds - known finding F38 - and the reads that
+                # follow a scenario may go through the index; the microsecond text of far instants is exercised by C05 on storage alone)
+                pts[0]["time"] = r.choice([-30628713600000000, -62135510400000000, 253370764800000000]) + r.randrange(60) * SEC
             half = len(pts) // 2
             ops += [("insert", pts[:half], None, "multiple"), ("insert", pts[half:], None, "multiple", "compact")] + self.file_obs() + obs
             ops += [(("reopen", r.random() < 0.5) if csv else ("reindex",)), ("all", False), ("get_tag_keys", None), ("get_field_keys", None), ("get_measurements",)]
